@@ -31,14 +31,15 @@ import itertools
 import threading
 import time
 
-from .. import core, vt
+from .. import core, run_ilv, vt
 
 PROPERTY = "C41"
 LEVEL = "exploration"
 META = {
     "engine": "hbfs",
     "technique": "exhaustive enumeration of bounded call histories / outcome combinations of the real bridge functions, each "
-    "judged by a reference model of the stated contract; asyncio on a manually stepped loop, run() with simulated threads",
+    "judged by a reference model of the stated contract; asyncio on a manually stepped loop, run() with simulated threads; plus stateless "
+    "exhaustive exploration of thread interleavings (bounded preemptions) of run() blocking on its latch while a controlled thread produces the sequence",
     "text": "every history of <=D events on from_future for three future kinds, every (sequence, api, constructor/scheduler) "
     "combination for to_future/await/run, every (function outcome, arity, subscription instant) for start/to_async, every "
     "(callback arity, mapper, call pattern, subscription number) for from_callback is executed and compared with the model",
@@ -859,10 +860,15 @@ def run(ctx: core.Ctx):
     }
     ctx.assumptions = [
         "asyncio/concurrent.futures behave as documented (callbacks via call_soon / synchronously)",
-        "run(): real threads are replaced by simulated ones whose body runs when the caller blocks on the latch; preemptive interleavings of run() belong to the thread-interleaving engine",
+        "run() enumeration part: real threads are replaced by simulated ones whose body runs when the caller blocks on the latch; preemptive interleavings of run() are explored by the E3 part",
     ]
+    # E3 part first, always in forked workers: it rebinds threading inside reactivex, which must not leak into the
+    # enumeration part (which installs its own simulated threads in whatever process it runs in)
+    all_workers = ctx.workers
+    ctx.workers = max(2, min(all_workers, 12))
+    run_ilv.run_part(ctx)
     # quick is < 1 s of work, thorough ~10 s: a wide fork pool costs more than it saves on a busy machine
-    ctx.workers = 1 if q else min(ctx.workers, 4)
+    ctx.workers = 1 if q else min(all_workers, 4)
     part = ctx.sharded(shard)
     ctx.cov["cases_per_family"] = {k[5:]: v for k, v in sorted(part.counters.items()) if k.startswith("part:")}
 
@@ -870,6 +876,8 @@ def run(ctx: core.Ctx):
 def replay(case):
     import logging
 
+    if isinstance(case, dict) and str(case.get("harness", "")).startswith("run-blocking|"):
+        return run_ilv.replay(case)
     logging.getLogger("asyncio").setLevel(logging.CRITICAL)
     problems, nontrivial, outcome = judge(case)
     print("case    :", case)
